@@ -96,6 +96,10 @@ def gen(tier, seed):
         extra_args=", d_i", extra_decl="\n    integer, intent(in) :: d_i")
     add("names", {"v": 4}, "do i = lo, hi\n  a(i) = b(i + d_i + d1_i)\nend do",
         extra_args=", d_i, d1_i", extra_decl="\n    integer, intent(in) :: d_i, d1_i")
+    # dependences hidden in expressions PSyclone keeps as code blocks (implied-do array constructors)
+    add("exprblock", {"v": 1}, "do i = lo, hi\n  a(i) = b(i) + sum((/ (c(j)*a(i-j), j = 1, 2) /))\nend do")
+    add("exprblock", {"v": 2}, "do i = lo, hi\n  a(i) = b(i) + sum((/ (c(j)*b(i-j), j = 1, 2) /))\nend do")
+    add("exprblock", {"v": 3}, "do i = lo, hi\n  c(i) = maxval((/ (a(i+j), j = 0, 1) /))\n  a(i) = b(i)\nend do")
     # steps and bounds
     for st, d in itertools.product([2, 3, -1, -2], [1, 2, -1]):
         hd = f"lo, hi, {st}" if st > 0 else f"hi, lo, {st}"
